@@ -589,7 +589,7 @@ class Misc(object):
                 strxor(a, b, output=S.OUT.view(max(L - 1, 0), pl))
                 return "wrong-size-output-accepted" if L else "ok"
             elif v == "m1":
-                strxor(a, S.A.view(L + 1, pl, data(L + 1, 3000)))
+                strxor(a, S.X.view(L + 1, pl, data(L + 1, 3000)))
                 return "length-mismatch-accepted"
             return "ok"
         if kind == "strxor_c":
@@ -783,8 +783,7 @@ class Ec(object):
         for c in WCURVES + ECURVES + XCURVES:
             out.append(("ec", c, "new"))
             out.append(("ec", c, "arith"))
-            for pat in PATTERNS:
-                out.append(("ec", c, "mul", pat))
+            out.append(("ec", c, "mul"))
         out.append(("ec", "high", "api"))
         return out
 
@@ -811,16 +810,18 @@ class Ec(object):
                 for op in ("double", "neg", "copy", "xy", "mul0", "mul1", "mulorder", "set"):
                     out.append(("ec", c, "arith", op, a, a))
         elif part == "mul":
-            pat = shard[3]
             kmax = 81
             heavy = c in ("p521", "ed448", "curve448", "p384")
-            for klen in range(0, kmax):
-                if not th and heavy and klen > 40 and klen % 8 not in (0, 1, 7):
-                    continue
-                for base in ("G", "7G", "inf"):
-                    if base == "inf" and klen % 8 not in (0, 1):
+            for pat in PATTERNS:
+                for klen in range(0, kmax):
+                    if not th and heavy and klen > 40 and klen % 8 not in (0, 1, 7):
                         continue
-                    out.append(("ec", c, "mul", pat, klen, base))
+                    if not th and pat in ("80", "one-low") and klen > 8 and klen % 8 not in (0, 1, 7):
+                        continue
+                    for base in ("G", "7G", "inf"):
+                        if base == "inf" and klen % 8 not in (0, 1):
+                            continue
+                        out.append(("ec", c, "mul", pat, klen, base))
         elif part == "api":
             for curve in WCURVES + ECURVES + XCURVES:
                 for what in ("construct", "dh", "sign", "export"):
@@ -881,15 +882,17 @@ class Ec(object):
             return "ok"
         if part == "arith":
             _, _, _, op, a, b = case
+            if c in XCURVES and op in ("add", "iadd", "double", "neg"):
+                return "ok-na"
             P, Q = Ec.point(c, a), Ec.point(c, b)
             if op == "add":
-                R = P + Q if c not in XCURVES else None
-                if R is None:
-                    raise TypeError("no addition on Montgomery x-only points")
+                if c in XCURVES:
+                    return "ok-na"
+                R = P + Q
                 Ec.touch(R, c)
             elif op == "iadd":
                 if c in XCURVES:
-                    raise TypeError("no addition on Montgomery x-only points")
+                    return "ok-na"
                 P += Q
                 P += P
                 Ec.touch(P, c)
@@ -946,16 +949,19 @@ class Ec(object):
                 Ec.touch(key.pointQ, c)
                 key.public_key()
             elif what == "export":
-                fmt = "raw" if c in seedlen else "SEC1"
-                blob = key.public_key().export_key(format=fmt)
-                k2 = ECC.import_key(blob, curve_name=c)
+                blob = key.public_key().export_key(format="DER")
+                k2 = ECC.import_key(S.IN.view(len(blob), "E", blob))
                 Ec.touch(k2.pointQ, c)
                 der = key.export_key(format="DER")
-                ECC.import_key(der)
+                ECC.import_key(S.A.view(len(der), "S", der))
+                if c not in seedlen:
+                    sec1 = key.public_key().export_key(format="SEC1", compress=True)
+                    k3 = ECC.import_key(S.X.view(len(sec1), "E", sec1), curve_name=c)
+                    Ec.touch(k3.pointQ, c)
             elif what == "dh":
                 from Crypto.Protocol.DH import key_agreement
                 if c in ECURVES:
-                    raise TypeError("no DH on Edwards keys")
+                    return "ok-na"
                 if c in seedlen:
                     other_k = ECC.construct(curve=c, seed=data(seedlen[c], 1100))
                 else:
@@ -964,7 +970,7 @@ class Ec(object):
             elif what == "sign":
                 from Crypto.Hash import SHA512, SHAKE256
                 if c in XCURVES:
-                    raise TypeError("no signatures with Montgomery keys")
+                    return "ok-na"
                 if c in ECURVES:
                     from Crypto.Signature import eddsa
                     s = eddsa.new(key, "rfc8032").sign(data(33))
